@@ -994,6 +994,22 @@ def _round_trips(obs, case, f, ctx, cfg, combos, light):
         n = _compare(obs, case, ref, got, tags, "as_serialised")
         if n:
             obs.nontrivial = True
+        # history on the rebuilt model: compute() (what save() does first) must leave an already computed,
+        # already ordered model as it is -- a flag lost in the round trip (e.g. POP's / a rotator's `sorted`)
+        # would make it re-apply the mode ordering
+        if not light and callable(getattr(m2, "compute", None)) and case.get("lazy", "eager") in ("eager", "lazy_post") and codec == "identity" and not ph:
+            try:
+                with warnings.catch_warnings():
+                    warnings.simplefilter("ignore")
+                    m2.compute()
+            except Exception as e:  # noqa: BLE001
+                _through(e)
+                obs.check("rebuilt_compute_raises", False, f"compute() on the rebuilt model: {type(e).__name__}: {e}",
+                          tags=_exc_tags(e, **dict(tags, stage="query", op="compute_rebuilt")))
+                continue
+            obs.cell("rebuilt_then_compute")
+            got_c = _queries(f2, ctx, light)
+            _compare(obs, case, ref, got_c, dict(tags, history="rebuilt_then_compute"), "rebuilt_then_compute")
     return rebuilt
 
 
